@@ -568,6 +568,33 @@ func (a *c13) cellNonNil(cell *ssa.Alloc, ld *ssa.UnOp, depth int) (bool, string
 			}
 		}
 	}
+	// a variable that is assigned once (it is a cell only because a function literal reads it) is its value:
+	// the question is then asked about that value at the place of the load, where the guards on it count
+	if len(escapes) == 0 {
+		var only *ssa.Store
+		nStores, handed := 0, false
+		for _, u := range core.Users(cell) {
+			switch y := u.(type) {
+			case *ssa.Store:
+				if y.Addr == ssa.Value(cell) {
+					nStores++
+					only = y
+				} else {
+					handed = true
+				}
+			case ssa.CallInstruction:
+				if _, isClosure := u.(*ssa.MakeClosure); !isClosure {
+					handed = true
+				}
+			}
+		}
+		if nStores == 1 && !handed && only.Block() != nil && ld.Block() != nil &&
+			(only.Block() == ld.Block() && instrIndex(only) < instrIndex(ld) || only.Block() != ld.Block() && only.Block().Dominates(ld.Block())) {
+			if ok, _ := a.nonNil(only.Val, ld, depth-1); ok {
+				return true, ""
+			}
+		}
+	}
 	var starts []core.Point
 	for _, b := range fn.Blocks {
 		for i, in := range b.Instrs {
@@ -1424,4 +1451,14 @@ func (a *c13) noSharedObjects() {
 	r.Check(len(bad) == 0, "C13-D6", "every-element-gets-its-own-object", "-",
 		"no map or slice made outside a loop is put into the document inside it",
 		"one map/slice object is put into several elements of the document: the elements share it, and the value written for the last one replaces the others' (a setting the step does not concern is lost)", bad...)
+}
+
+// instrIndex is the position of in within its block.
+func instrIndex(in ssa.Instruction) int {
+	for i, x := range in.Block().Instrs {
+		if x == in {
+			return i
+		}
+	}
+	return -1
 }
